@@ -295,7 +295,7 @@ Qed.
 
 (* ================================================================== what every execution satisfies *)
 Definition flow_ok (e : fenv) (s : state) (o : op) (x' : fstate) (ob : obs) : Prop :=
-  (o_err ob = "PANIC" \/ mon_c (fe_tx e) (f_calls x') = None) /\
+  mon_c (fe_tx e) (f_calls x') = None /\
   mon_serial o (f_calls x') ob = None /\
   (mon_b o (f_calls x') ob = None \/
    mon_b o (f_calls x') ob = Some "tokens_issued_after_notfound_fault_on_pkce_lookup") /\
@@ -303,7 +303,8 @@ Definition flow_ok (e : fenv) (s : state) (o : op) (x' : fstate) (ob : obs) : Pr
   (succeeded ob = false -> log (f_s x') = log s) /\
   clients (f_s x') = clients s /\ now (f_s x') = now s /\
   store_le (next_key s) (st s) (st (f_s x')) /\
-  (o_err ob = "PANIC" \/ f_snap x' = None).
+  f_snap x' = None /\
+  panicked ob = false.
 
 Definition flow_okp e s o (r : fstate * obs) : Prop := flow_ok e s o (fst r) (snd r).
 
@@ -330,13 +331,13 @@ Record blk_ok (e : fenv) (rf : bool) (x x' : fstate) (res : string + (nat * opti
   bk_le : store_le (next_key (f_s x)) (st (f_s x)) (st (f_s x'));
   bk_res : match res with
            | inr _ => injected l = false /\ any_rollback l = false /\ has_call l MCommit is_ok = fe_tx e /\ has_call l MBegin is_ok = fe_tx e
-           | inl err => err <> "" /\ (rolled_back (fe_tx e) l = true -> st (f_s x') = st (f_s x)) /\
+           | inl err => (err = "server_error" \/ err = "invalid_request") /\ (rolled_back (fe_tx e) l = true -> st (f_s x') = st (f_s x)) /\
                         (rf = true -> serial_in_tx l = true -> has_call l MRollback is_injr = false -> err = "invalid_request")
            end
 }.
 
 Ltac fl_unfold :=
-  unfold fredeem, frefresh, fdevice, fpassword, fclient_credentials, frevoke, freuse, fpanic, lookup_rt, lookup_at,
+  unfold fredeem, frefresh, fdevice, fpassword, fclient_credentials, frevoke, freuse, lookup_rt, lookup_at,
          fpkce_handle, tx_block, commit_part, abort, begin_tx, commit_tx, rollback_tx, rd, wr, planned, ffail,
          inval_code, mint_pair, mint, fresh_rid, code_class, rt_class, srv; cbv zeta.
 Ltac fl_cbn :=
@@ -391,7 +392,7 @@ Ltac blk_leaf Hm Etx :=
     match goal with
     | |- _ /\ _ /\ _ /\ _ = _ => split; [blk_bool Hm|split; [blk_bool Hm|split; blk_bool Hm]]
     | |- _ /\ _ /\ _ =>
-        split; [try (match goal with b : bool |- _ => destruct b end); split_faults; discriminate
+        split; [try (match goal with b : bool |- _ => destruct b end); split_faults; cbn; auto
                |split; [intros Hrb; try reflexivity; exfalso; revert Hrb; blk_bool Hm
                        |intros Hrf Hs Hr; try discriminate Hrf; revert Hs Hr; blk_bool Hm]]
     end ].
@@ -418,7 +419,7 @@ Record reuse_ok (e : fenv) (x x' : fstate) (res : option string) (l : list call)
   ru_log : log (f_s x') = log (f_s x);
   ru_key : next_key (f_s x') = next_key (f_s x);
   ru_le : store_le (next_key (f_s x)) (st (f_s x)) (st (f_s x'));
-  ru_err : forall err, res = Some err -> err <> "";
+  ru_err : forall err, res = Some err -> err = "server_error" \/ err = "invalid_request";
   ru_rb : rolled_back (fe_tx e) l = true -> st (f_s x') = st (f_s x);
   ru_serial : serial_in_tx l = true -> has_call l MRollback is_injr = false -> res = Some "invalid_request"
 }.
@@ -442,7 +443,7 @@ Ltac reuse_leaf1 Etx :=
   | cbn [app]; intros; ru_bool
   | try reflexivity; assumption | reflexivity | reflexivity | reflexivity | reflexivity
   | sle_tac
-  | intros err Herr; try discriminate Herr; injection Herr as <-; split_faults; discriminate
+  | intros err Herr; try discriminate Herr; injection Herr as <-; split_faults; cbn; auto
   | cbn [app]; intros Hrb; try reflexivity; exfalso; revert Hrb; ru_bool
   | cbn [app]; intros Hs Hr; revert Hs Hr; ru_bool ].
 Ltac reuse_leaf Etx := rr_class; reuse_leaf1 Etx.
@@ -475,7 +476,7 @@ Ltac leaf1 :=
   split; [try reflexivity; try (intros Hrb; exfalso; revert Hrb; vm_compute; discriminate)|];
   split; [reflexivity|];
   split; [reflexivity|];
-  split; [sle_tac|first [right; reflexivity | left; reflexivity]].
+  split; [sle_tac|split; [reflexivity|bool_leaf]].
 Ltac leaf := err_nonempty; leaf1.
 
 Lemma fclient_credentials_ok e cfg s auth sc au g ga :
